@@ -332,7 +332,74 @@ var (
 	WorkLimit int64 = 60_000_000
 )
 
+// foldDef: a mentions the formal power D^e of a multi-term polynomial Q (D = FDef(Q)), and b is Q itself up to a
+// constant and a monomial factor: the product raises the exponent instead of expanding Q (u^((p-3)/4)·u is u^((p+1)/4),
+// the same value an implementation with a dedicated chain for (p+1)/4 produces).  Monomials of a without D are
+// multiplied out as usual.  nil when the rule does not apply.
+func foldDef(a, b *Poly) *Poly {
+	if len(b.mons) < 2 || len(a.mons) == 0 {
+		return nil
+	}
+	var defs []*FVar
+	seen := map[*FVar]bool{}
+	for _, m := range a.mons {
+		for _, x := range m.vars {
+			if x.v.Kind == FDef && !seen[x.v] {
+				seen[x.v] = true
+				defs = append(defs, x.v)
+			}
+		}
+	}
+	if len(defs) == 0 {
+		return nil
+	}
+	c, mono, prim := b.content()
+	if len(prim.mons) < 2 {
+		return nil
+	}
+	var d *FVar
+	for _, v := range defs {
+		if v.Q.Key() == prim.Key() {
+			d = v
+		}
+	}
+	if d == nil {
+		return nil
+	}
+	f := a.F
+	factor := PolyConst(f, c)
+	for _, x := range mono {
+		factor = factor.Mul(varPow(f, x.v, x.e))
+	}
+	factor = factor.Mul(varPow(f, d, big.NewInt(1)))
+	out := newPoly(f)
+	for _, m := range a.mons {
+		single := newPoly(f)
+		single.addMon(m.c, m.vars)
+		has := false
+		for _, x := range m.vars {
+			if x.v == d {
+				has = true
+			}
+		}
+		if has {
+			out = out.Add(single.Mul(factor))
+		} else {
+			out = out.Add(single.Mul(b))
+		}
+	}
+	return out
+}
+
 func (p *Poly) Mul(q *Poly) *Poly {
+	if len(q.mons) >= 2 || len(p.mons) >= 2 {
+		if r := foldDef(p, q); r != nil {
+			return r
+		}
+		if r := foldDef(q, p); r != nil {
+			return r
+		}
+	}
 	out := newPoly(p.F)
 	Work += int64(len(p.mons)) * int64(len(q.mons))
 	tick()
